@@ -41,4 +41,41 @@ def lowerName : Geo.AType → String
 def toStringOf (special : List (String × String)) (t : Geo.AType) : String :=
   (lookupStr special (lowerName t)).getD (lowerName t)
 
+/-! ### `mouette.mesh.save`: the `ignore_elements` guards and what they do to the caller's mesh -/
+
+/-- how `save` gets rid of ignored elements: `replace` = the re-wrapped RawMeshData gets fresh empty containers
+(repaired code); `clearShared` = `.clear()` on containers shared with the mesh (pinned tree) -/
+inductive IgnoreMode where | replace | clearShared
+deriving DecidableEq, Repr
+
+/-- `(keyword, containers emptied)` rows of the `if "<kw>" in ignore_elements:` guards of `save` -/
+def saveIgnoreRows : List (String × List String) :=
+  [("edges", ["edges"]), ("faces", ["faces", "face_corners"]), ("cells", ["cells", "cell_corners", "cell_faces"])]
+
+def flagOf (ig : Ignore) (kw : String) : Bool :=
+  if kw = "edges" then ig.edges else if kw = "faces" then ig.faces else if kw = "cells" then ig.cells else false
+
+def clearedBy (rows : List (String × List String)) (ig : Ignore) (container : String) : Bool :=
+  rows.any (fun r => flagOf ig r.1 && r.2.contains container)
+
+/-- `applyIgnore` computed from a guard table -/
+def applyIgnoreWith {C : Type} (rows : List (String × List String)) (ig : Ignore) (m : Raw C) : Raw C :=
+  { verts := m.verts,
+    edges := if clearedBy rows ig "edges" then [] else m.edges,
+    hard := if clearedBy rows ig "edges" then none else m.hard,
+    faces := if clearedBy rows ig "faces" then [] else m.faces,
+    cells := if clearedBy rows ig "cells" then [] else m.cells }
+
+/-- one call of `save`: (content handed to the writer, the caller's mesh afterwards) -/
+def saveMesh {C : Type} (mode : IgnoreMode) (ig : Ignore) (m : Raw C) : Raw C × Raw C :=
+  (applyIgnore ig m, match mode with | .replace => m | .clearShared => applyIgnore ig m)
+
+/-- a history of saves on ONE mesh object: the contents written, in order, and the mesh at the end -/
+def saveHistory {C : Type} (mode : IgnoreMode) : List Ignore → Raw C → List (Raw C) × Raw C
+  | [], m => ([], m)
+  | ig :: rest, m =>
+    let r := saveMesh mode ig m
+    let h := saveHistory mode rest r.2
+    (r.1 :: h.1, h.2)
+
 end Mouette.IO.Tables
